@@ -110,9 +110,9 @@ theorem writeTo_safe {B : Nat} (ncsrc : Nat) (hasExt : Bool) (extLen : Nat) {Q b
 
 attribute [local irreducible] writeTo
 
-theorem marshal_safe (ncsrc : Nat) (hasExt : Bool) (extLen payloadLen paddingLen : Nat) (b : Buf) (n : Nat) :
+theorem marshal_safe (pt ncsrc : Nat) (hasExt : Bool) (extLen payloadLen paddingLen : Nat) (b : Buf) (n : Nat) :
     safe (· ≤ n + (encodedHdrLen ncsrc hasExt extLen + payloadLen + paddingLen))
-      (marshal ncsrc hasExt extLen payloadLen paddingLen)
+      (marshal pt ncsrc hasExt extLen payloadLen paddingLen)
       (fun r _ n' => r = encodedHdrLen ncsrc hasExt extLen + payloadLen + paddingLen ∧ n' = n + r) b n := by
   unfold marshal
   cur_auto
